@@ -146,11 +146,21 @@ check('C11', 'E2-world',
       'DESIGN.md section 7 C11')
 
 
+check('C16', 'E2-world',
+      'Seeded request sequences sharing cache identifiers against datasets linked by per-axis affine pixel maps (scale, offset, permutation, '
+      'missing link): every request is compared with an independent nearest-pixel resampler (explicit index arithmetic; half-way samples '
+      'accept either neighbour) and, when it used a cache id, with the same request made without one - whatever bounds, attributes, '
+      'selections or datasets were requested before under that id. Sampling, not proof.',
+      'Data, links and selections are frozen after set-up (statement: "for unchanged data"); ImageLayerState.get_sliced_data is not driven.',
+      'deterministic simulation: seeded request history over the process-wide FRB caches + independent resampling model + with/without-cache differential',
+      'DESIGN.md section 7 C16')
+
+
 def na(pid, reason):
     NA[pid] = dict(property_id=pid, reason=reason)
 
 PENDING = 'check under construction in this build round (see DESIGN.md section 7); not claimed until its oracle is proven sound on the unchanged tree'
-for pid in [ 'C11', 'C16', 'C18']:
+for pid in ['C18']:
     na(pid, PENDING)
 na('C08', 'pure function of region parameters and points: no schedule, clock, fault, shared state or history for a simulator to vary (DESIGN.md section 8)')
 na('C09', 'pure translation roi -> subset state; nothing stateful or faulty involved (DESIGN.md section 8)')
